@@ -1,5 +1,6 @@
 From Coq Require Import List String ZArith NArith Bool.
 From Piko Require Import Auth.Token Auth.Verify Auth.Routes Auth.Serve AuthP.VerifyP AuthP.RoutesP AuthP.ExamplesP generated.RouteTables.
+From Piko Require Import Proxy.UrlPath ProxyP.UrlPathP.
 Import ListNotations.
 Open Scope string_scope. Open Scope list_scope.
 
@@ -112,6 +113,16 @@ Example C10_tenants_satisfiable :
   auth_mw ex_mtv ex_dec (ex_req_tenant "t1") 0%Z = Reject 401 "unknown tenant".
 Proof. exact ex_tenants. Qed.
 
+(* "the endpoint that is checked is the very endpoint the request is then routed to, whether it was named by ... URL path":
+   for a listen (`/piko/v1/upstream/:endpointID`) and a TCP dial (`/_piko/v1/tcp/:endpointID`) the route parameter the
+   handlers check against the token is, for EVERY endpoint id the client names, that id or nothing (Proxy/UrlPath.v: the
+   client's escaping, the server's decoding, gin's match). *)
+Theorem C10_path_named_endpoint_is_the_clients :
+  (forall id e, dialled_endpoint upstream_prefix id = Some e -> e = id) /\
+  (forall id e, dialled_endpoint tcp_prefix id = Some e -> e = id) /\
+  (forall prefix id, has_slash id = false -> id <> "" -> dialled_endpoint prefix id = Some id).
+Proof. exact (conj (dialled_only_named upstream_prefix) (conj (dialled_only_named tcp_prefix) dialled_is_named)). Qed.
+
 Print Assumptions C10_exact_membership.
 Print Assumptions C10_no_list_any_endpoint.
 Print Assumptions C10_checked_is_routed.
@@ -120,3 +131,4 @@ Print Assumptions C10_routed_is_permitted.
 Print Assumptions C10_tenants.
 Print Assumptions C10_tenants_default_unreachable.
 Print Assumptions C10_no_tenants_header_refused.
+Print Assumptions C10_path_named_endpoint_is_the_clients.
